@@ -1679,3 +1679,65 @@ def rule_c14_fastpath(r):
         for row in rows:
             _, status, f, fn, construct, line, detail = row
             getattr(r, status)(f, fn, construct, line, detail)
+
+
+# --------------------------------------------------------------------------------------------- quadrature tables
+def gausstab_unit(unit, extra):
+    """Worker: the constant quadrature tables compiled into the unit, folded: {name: [values]}."""
+    tabs = _table_sums(unit)
+    out = {}
+    for name, vals in tabs.items():
+        if name.lower().startswith("gauss") and (name.endswith("Wt") or name.endswith("Z")):
+            f = [d for d in unit.ast.get("inner", []) if d.get("kind") == "VarDecl" and d.get("name") == name]
+            ff, ll = unit.where(f[0]) if f else ("?", 0)
+            out[name] = (vals, ff, ll)
+    return out
+
+
+def rule_gauss_tables(r):
+    """Every model that integrates numerically assumes a Gauss-Legendre rule on [-1, 1]: the orientation averages divide by
+    the interval, i.e. by the weight sum 2, and <F>^2 <= <F^2> at q -> 0 holds with equality only if the weights the two sums
+    share add up exactly.  The literal tables are folded and checked as data: weights positive, summing to 2, mirror
+    symmetric; nodes strictly increasing inside (-1, 1) and mirror antisymmetric; as many nodes as weights (padding zeros
+    after the rule's length are allowed)."""
+    from .. import cfront
+    res = cfront.map_units("sa.rules.extra3:gausstab_unit")
+    tabs = {}
+    for unit, d in sorted(res.items()):
+        for name, (vals, f, l) in d.items():
+            tabs.setdefault(name, (vals, f, l))
+    pairs = {}
+    for name in tabs:
+        base = name[:-2] if name.endswith("Wt") else name[:-1]
+        pairs.setdefault(base, {})["W" if name.endswith("Wt") else "Z"] = name
+    if len(pairs) < 3:
+        raise AnalysisError("quadrature tables not found (%s)" % sorted(tabs))
+    for base, pz in sorted(pairs.items()):
+        if "W" not in pz or "Z" not in pz:
+            r.violation("sasmodels/models/lib", base, "weights and nodes tables", 0, "one of the two tables is missing: %s" % pz)
+            continue
+        w, fw, lw = tabs[pz["W"]]
+        z, fz, lz = tabs[pz["Z"]]
+        m = re_digits(base)
+        n = m if m and m <= len(w) else len(w)
+        w0, z0 = w[:n], z[:n]
+        pad_ok = all(v == 0.0 for v in w[n:])
+        s = sum(w0)
+        r.check(abs(s - 2.0) < 1e-9 and all(v > 0 for v in w0) and pad_ok, fw, pz["W"], "%d weights, sum %.15g" % (n, s), lw,
+                "positive weights of a rule on [-1, 1] sum to 2 (to the 1e-9 the tables are printed to)" if abs(s - 2.0) < 1e-9 else
+                "the weights sum to %.12g, not 2: every orientation average built on this table is off by that factor in <F> and in "
+                "<F^2> alike, so <F>^2/<F^2> at q -> 0 is %.3g instead of 1" % (s, s / 2.0))
+        asym = [i for i in range(n // 2) if abs(w0[i] - w0[n - 1 - i]) > 1e-15 * max(1.0, abs(w0[i]))]
+        r.check(not asym, fw, pz["W"], "mirror symmetry w[i] == w[n-1-i]", lw,
+                "symmetric" if not asym else "entries %s differ from their mirror entries (e.g. w[%d] = %.16g, w[%d] = %.16g): a mistyped digit"
+                % (asym[:4], asym[0], w0[asym[0]], n - 1 - asym[0], w0[n - 1 - asym[0]]))
+        mono = all(z0[i] < z0[i + 1] for i in range(n - 1)) and all(-1.0 < v < 1.0 for v in z0)
+        anti = [i for i in range(n // 2) if abs(z0[i] + z0[n - 1 - i]) > 1e-15]
+        r.check(mono and not anti, fz, pz["Z"], "%d nodes increasing in (-1, 1), z[i] == -z[n-1-i]" % n, lz,
+                "antisymmetric" if mono and not anti else "nodes not increasing / not antisymmetric at %s" % anti[:4])
+
+
+def re_digits(s):
+    import re
+    m = re.search(r"(\d+)$", s)
+    return int(m.group(1)) if m else None
